@@ -36,8 +36,12 @@ Definition srow := (bool * row)%type.              (* (DELETE bit, values) *)
    catalogue's column list); only the evolution-aware decoder of full scans and of DROP COLUMN
    reads such a record correctly *)
 Record itbl := mkI { icols : list col; irows : list srow; imis : option (list col); ishort : bool }.
-Record istate := mkIS { itabs : list (Z * itbl); iidx : list idx }.
-Definition i_empty : istate := mkIS [] [].
+(* ifiles: (index name, table) of index FILES whose definition is gone from the catalogue: DROP COLUMN
+   removes the definitions of the indexes on the column (table.remove_index) but only empties
+   their files *)
+Record istate := mkIS { itabs : list (Z * itbl); iidx : list idx; ifiles : list (Z * Z) }.
+Definition i_empty : istate := mkIS [] [] [].
+Definition in_files (i : Z) (l : list (Z * Z)) : bool := existsb (fun e => fst e =? i) l.
 
 Definition live (rs : list srow) : list row := map snd (filter (fun p => negb (fst p)) rs).
 Definition has_tomb (rs : list srow) : bool := existsb fst rs.
@@ -97,7 +101,7 @@ Definition i_rename_col (c n : Z) (tb : itbl) : option itbl :=
 Definition i_on (t : Z) (f : itbl -> option itbl) (s : istate) : istate * bool :=
   match get t (itabs s) with
   | Some tb => match f tb with
-               | Some tb' => (mkIS (put t tb' (itabs s)) (iidx s), true)
+               | Some tb' => (mkIS (put t tb' (itabs s)) (iidx s) (ifiles s), true)
                | None => (s, false)
                end
   | None => (s, false)
@@ -111,12 +115,13 @@ Definition i_step (s : istate) (st : stmt) : istate * bool :=
       | None => match cs with
                 | [] => (s, false)                 (* does not parse *)
                 | _ => if nodup_names cs && forallb (fun c => fits (cty c) (cdef c)) cs
-                       then (mkIS (itabs s ++ [(t, mkI cs [] None false)]) (iidx s), true) else (s, false)
+                       then (mkIS (itabs s ++ [(t, mkI cs [] None false)]) (iidx s) (ifiles s), true) else (s, false)
                 end
       end
   | DropTable t =>
       match get t (itabs s) with
-      | Some _ => (mkIS (del t (itabs s)) (filter (fun e => negb (idx_of_table t e)) (iidx s)), true)
+      | Some _ => (mkIS (del t (itabs s)) (filter (fun e => negb (idx_of_table t e)) (iidx s))
+                        (filter (fun e => negb (snd e =? t)) (ifiles s)), true)     (* drop_table removes every index file *)
       | None => (s, false)
       end
   | Insert t r => i_on t (i_insert r) s
@@ -128,7 +133,8 @@ Definition i_step (s : istate) (st : stmt) : istate * bool :=
   | AddCol t c => i_on t (i_add_col c) s
   | DropCol t c exact =>
       match i_on t (i_drop_col c exact) s with
-      | (s', true) => (mkIS (itabs s') (filter (fun e => negb (idx_on t c e)) (iidx s')), true)
+      | (s', true) => (mkIS (itabs s') (filter (fun e => negb (idx_on t c e)) (iidx s'))
+                            (ifiles s' ++ map fst (filter (idx_on t c) (iidx s'))), true)
       | r => r
       end
   | RenameCol t c n => i_on t (i_rename_col c n) s
@@ -136,10 +142,13 @@ Definition i_step (s : istate) (st : stmt) : istate * bool :=
   | CreateIndex i t c =>
       match get t (itabs s) with
       | Some tb => if has_idx i (iidx s) then (s, false)
-                   else (mkIS (itabs s) (iidx s ++ [(i, t, c)]), true)
+                   else if in_files i (ifiles s)
+                   then (* the definition is registered, then creating the file fails *)
+                        (mkIS (itabs s) (iidx s ++ [(i, t, c)]) (filter (fun e => negb (fst e =? i)) (ifiles s)), false)
+                   else (mkIS (itabs s) (iidx s ++ [(i, t, c)]) (ifiles s), true)
       | None => (s, false)
       end
-  | DropIndex i => if has_idx i (iidx s) then (mkIS (itabs s) (drop_idx i (iidx s)), true) else (s, false)
+  | DropIndex i => if has_idx i (iidx s) then (mkIS (itabs s) (drop_idx i (iidx s)) (ifiles s), true) else (s, false)
   | Reopen => (s, true)
   end.
 
@@ -210,7 +219,8 @@ Definition step_class (s : istate) (st : stmt) : Z :=
       else 0
   | CreateIndex i t c =>
       match get t (itabs s) with
-      | Some tb => if negb (has_idx i (iidx s)) && negb (has_col c (icols tb)) then 8
+      | Some tb => if negb (has_idx i (iidx s)) && in_files i (ifiles s) then 12   (* file left by DROP COLUMN *)
+                   else if negb (has_idx i (iidx s)) && negb (has_col c (icols tb)) then 8
                    else if ishort tb then 11 else 0
       | None => 0
       end
